@@ -1138,6 +1138,8 @@ def prof_four_syntaxes(g, n):
         adef = common_fragment_adef(g)
         # how non-negative integers are spelled where the syntax has a choice (hex / binary literals; JSON has none)
         adef["num_style"] = g.pick(["dec", "dec", "hex", "bin", "mixed", "mixed"])
+        if g.chance(0.4):
+            adef["spell"] = "alt"     # inclusive ranges (DSL), ReadWrite / ReadOnly / WriteOnly (all syntaxes)
         for syn in SYNTAXES:
             out.append(case(copy.deepcopy(adef), syn, "four", group=i, want_mir=True, want_tokens=True))
     return out
